@@ -61,9 +61,10 @@ def worker_init():
     _SF = selfies
 
 
-def outcome(s):
+def outcome(s, **kw):
     try:
-        return ("ok", _SF.decoder(s))
+        res = _SF.decoder(s, **kw)
+        return ("ok", res[0] if isinstance(res, tuple) else res)
     except _SF.DecoderError:
         return ("DecoderError",)
     except Exception as e:
@@ -100,6 +101,28 @@ def check(w, r, table):
             r.violation("nop-changes-outcome" if base[0] == got[0] else "nop-changes-acceptance",
                         {"selfies": s, "padded": v, "table": table}, "decoder(%r)=%r but decoder(%r)=%r" % (s, base, v, got))
             break
+    # the same with the flags set (every single insertion position and the all-positions variant)
+    if bad is None:
+        n = len(w)
+        for kw in ({"compatible": True}, {"attribute": True}):
+            basef = outcome(s, **kw)
+            for mask in [1 << i for i in range(n + 1)] + [(1 << (n + 1)) - 1]:
+                parts = []
+                for i in range(n + 1):
+                    if mask >> i & 1:
+                        parts.append("[nop]")
+                    if i < n:
+                        parts.append(w[i])
+                v = "".join(parts)
+                r.evaluations += 1
+                got = outcome(v, **kw)
+                if got != basef:
+                    bad = (kw, v, got)
+                    r.violation("nop-changes-outcome-with-flag:" + next(iter(kw)), {"selfies": s, "padded": v, "table": table, "flags": kw},
+                                "decoder(%r, %r)=%r but decoder(%r, %r)=%r" % (s, kw, basef, v, kw, got))
+                    break
+            if bad is not None:
+                break
     # padding through the encoding utilities (needs every symbol in the vocabulary)
     if misc.is_wellformed_single_dots(s):      # the encoding utilities are defined on single-dot strings (C14)
         syms = sorted(set(w) | {"[nop]", "."})
@@ -195,5 +218,6 @@ def replay(case):
             case["padded"] = _SF.encoding_to_selfies(lab, {i: x for x, i in stoi.items()}, enc_type="label")
         else:
             case["padded"] = "".join(w[:case["position"]]) + "[nop]" * case["nop_run"] + "".join(w[case["position"]:])
-    a, b = outcome(case["selfies"]), outcome(case["padded"])
+    kw = case.get("flags") or {}
+    a, b = outcome(case["selfies"], **kw), outcome(case["padded"], **kw)
     return [] if a == b else [("nop-changes-outcome", "decoder(%r)=%r but decoder(%r)=%r" % (case["selfies"], a, case["padded"], b))]
